@@ -136,6 +136,42 @@ theorem later_ops_error (ord : List Bool) (s : St) (o : Op) (h0 : s.left = 0)
         · exact ⟨s2, .write, by rw [hr]⟩
         · exact ⟨s2, e, by rw [hr]⟩
 
+/-- EVERY QUEUE CONTENT. Once the read goroutine has noticed the loss (it has exited after EOF, or
+is blocked handing over the error), an operation that still has a `ReadUntil*` ahead of it returns
+an error within `maxAdjWrites + 1` ticks and never returns `ok` — with no hypothesis at all on what
+is sitting in the queue: bytes received before the loss, even a complete prompt or a complete
+NETCONF message, are never handed to a later operation (`Channel.Read` looks at `Errs` and at
+`readLoopExited` before it dequeues). -/
+theorem later_ops_error_any_queue (ord : List Bool) (s : St) (o : Op) (ha : Armed s)
+    (hr : hasRead o.prog = true) (hlen : maxAdjWrites o.prog < ord.length) :
+    (∃ s' e, run (ticks ord) s o = (s', .inr (.error e))) ∧
+    ∀ sched s' outs, run sched s o ≠ (s', .inr (.ok outs)) := by
+  refine ⟨?_, fun sched s' outs => inv_never_ok armedRead_stepInv sched s s' o outs ⟨ha, hr⟩⟩
+  apply inv_armed_returns armedRead_stepInv (ticks ord) s o ha ⟨ha, hr⟩
+  have := adjWrites_le_max o.prog
+  rw [opCount_ticks]; omega
+
+/-- … and after EOF this holds for the whole rest of the session: the goroutine stays exited
+through every operation, so each later operation meets the hypotheses above again, whatever the
+queue holds and whatever earlier operations did. -/
+theorem eof_is_forever (sched : List Actor) (s : St) (o : Op) (h : s.rd = .exited) :
+    (run sched s o).1.rd = .exited ∧ Armed (run sched s o).1 :=
+  ⟨exited_run sched s o h, Or.inr (exited_run sched s o h)⟩
+
+/-- idle loss with a complete prompt already queued: `GetPrompt` would be satisfied by the stale
+bytes, yet it returns `ErrConnectionError`, under either tick order; the stale bytes stay unread -/
+example :
+    let isPrompt : Bytes → Bool := fun b => b == [10, 114, 35]          -- "\nr#"
+    let s : St := rstep { fresh 0 .eof with q := [[10, 114, 35]] }      -- EOF noticed while idle
+    Armed s ∧ hasRead [Phase.write [10] [], .read isPrompt] = true ∧
+    (match run (ticks [true, true]) s (start [.write [10] [], .read isPrompt]) with
+      | (s', .inr (.error e)) => e == .connection && s'.q == [[10, 114, 35]]
+      | _ => false) = true ∧
+    (match run (ticks [false, false]) s (start [.write [10] [], .read isPrompt]) with
+      | (_, .inr (.error e)) => e == .connection
+      | _ => false) = true := by
+  refine ⟨Or.inr (by decide), rfl, by decide, by decide⟩
+
 /-- the dead transport stays dead: nothing an operation or the read goroutine does brings bytes back -/
 theorem loss_is_permanent (sched : List Actor) (s s1 : St) (o o1 : Op) (h0 : s.left = 0)
     (hD : DoomedSt s o) (hr : run sched s o = (s1, .inl o1)) : s1.left = 0 :=
